@@ -41,8 +41,8 @@ OPS = {"+": operator.add, "-": operator.sub, "*": operator.mul, "/": operator.tr
 
 def budget(tier):
     if tier == "quick":
-        return dict(max_examples=1500, workers=4, time_s=160, min_cases=300)
-    return dict(max_examples=100000, workers=16, time_s=1200, min_cases=600)
+        return dict(max_examples=4000, workers=8, time_s=160, min_cases=800)
+    return dict(max_examples=400000, workers=16, time_s=1200, min_cases=1600)
 
 
 # ------------------------------------------------------------------ leaf functions (module level: picklable)
